@@ -134,6 +134,29 @@ let eval = function
     (match std_itw f (Stdlib.List.length v) with
      | None -> "panic"
      | Some t -> opt_vec (FFTSplit.interpolate_poly_concurrent (ops f) v t))
+  | [ "split_eval_off"; fl; "std"; off; blowup; v ] ->
+    let f = fld_of fl in
+    let v = vec v in
+    (match std_tw f (Stdlib.List.length v) with
+     | None -> "panic"
+     | Some t -> opt_vec (FFTSplit.evaluate_poly_with_offset_concurrent (ops f) (rootf f) v t (z off) (nat blowup)))
+  | [ "split_interp_off"; fl; "std"; off; v ] ->
+    let f = fld_of fl in
+    let v = vec v in
+    (match std_itw f (Stdlib.List.length v) with
+     | None -> "panic"
+     | Some t -> opt_vec (FFTSplit.interpolate_poly_with_offset_concurrent (ops f) v t (z off)))
+  | [ "split_rowmat"; fl; n; off; blowup; cs ] ->
+    let f = fld_of fl in
+    let cs = cols cs in
+    (match std_tw f (Stdlib.List.length (Stdlib.List.hd cs)) with
+     | None -> "panic"
+     | Some t ->
+       (match FFTSplit.evaluate_polys_over_concurrent (ops f) (rootf f) (nat n) cs t (z off) (nat blowup) with
+        | None -> "panic"
+        | Some m ->
+          Stdlib.Printf.sprintf "%d %d %s" (int_of_nat (FFT.rm_num_rows m))
+            (int_of_nat m.FFT.rm_elements_per_row) (show_vec m.FFT.rm_data)))
   | [ "interpt"; fl; tw; v ] ->
     let f = fld_of fl in
     let v = vec v in
